@@ -279,6 +279,9 @@ func Run(out string) {
 		var less func(a, b *sam.Record) bool
 		if order == "less" {
 			less = func(a, b *sam.Record) bool { return a.Pos < b.Pos }
+		} else if order != "none" && r.Intn(3) == 0 {
+			// for every declared order the less parameter is ignored: pass one that would order differently
+			less = func(a, b *sam.Record) bool { return a.Pos > b.Pos || (a.Pos == b.Pos && a.Name > b.Name) }
 		}
 		var m *bam.Merger
 		var err error
